@@ -1,7 +1,7 @@
 (* C20 — ARL packed-bit packing error is bounded and unpack inverts pack.
    Property statements only; every proof is `exact <lemma>` or a vm_compute witness.
    Model: Model/Arl.v (exact arithmetic; h = half the quantum 2^(NEXP-7) in the caller's unit). *)
-From PNC Require Import Base.Util Model.Arl Proofs.ArlProofs Model.ArlFile Proofs.ArlFileProofs.
+From PNC Require Import Base.Util Model.Arl Proofs.ArlProofs Model.ArlFile Proofs.ArlFileProofs Proofs.ArlReadProofs.
 Local Open Scope Z_scope.
 
 (* Whenever every scan-order neighbour difference of the field is at most 127 quanta
@@ -116,7 +116,7 @@ Proof. exact file_field_bound. Qed.
 Print Assumptions C20_file_field_bound_partial.
 
 (* The library's blank-terminated table parser (readvardef) returns the encoded table when
-   the table is followed by blanks only (this is where the library needs 108 blank bytes). *)
+   the table is followed by blanks only or by nothing (the repaired reader hands it exactly the table). *)
 Theorem C20_file_readvardef_partial : forall nc ls pad fuel,
   forallb (wf_lvl nc) ls = true ->
   forallb (fun l => float_ok (l_text l) && negb (blank (l_text l))) ls = true ->
@@ -124,6 +124,19 @@ Theorem C20_file_readvardef_partial : forall nc ls pad fuel,
   readvardef fuel (enc_table ls ++ pad) = Some (map lent ls).
 Proof. exact readvardef_enc. Qed.
 Print Assumptions C20_file_readvardef_partial.
+
+(* The model of the (repaired) library reader returns the ideal view of the content on the
+   encoding of EVERY well-formed content with the same layout and keys in every period, a grid of
+   at least 2 x 2 cells, level heights float() accepts, and no key shared between the surface and
+   the upper levels: variable list, level list, times and, per variable / time / level, EXP, VAR1
+   and the packed bytes.  _partial because of the last hypothesis (refuted below, region 6). *)
+Theorem C20_file_reader_partial : forall p0 rest,
+  forallb wf_period (p0 :: rest) = true -> forallb (same_layout p0) rest = true ->
+  forallb (same_keys p0) rest = true ->
+  lib_grid_ok p0 = true -> lvl_texts_ok p0 = true -> keys_disjoint p0 = true -> p_levels p0 <> [] ->
+  impl_read gen_sizes (enc (p0 :: rest)) = spec_view (p0 :: rest).
+Proof. intros. rewrite gen_sizes_std. now apply impl_read_spec. Qed.
+Print Assumptions C20_file_reader_partial.
 
 (* Tie T: statements over coq/Gen/Arl.v (regenerated from _arl.py on every run). *)
 Theorem C20_gen_sizes : gen_sizes = std_sizes.
@@ -146,7 +159,8 @@ Theorem C20_gen_record_length : forall nx ny hlen,
   let hdr := G.arl_hdrlen nc hlen (G.dtype_itemsize G.arl_thdtype) in
   G.dtype_itemsize G.arl_thdtype + G.arl_vardeflen hlen + hdr = 50 + nx * ny
   /\ G.dtype_itemsize (G.arl_lay1dtype ny nx) = 50 + nx * ny
-  /\ hdr = (nx * ny - hlen) - 108
+  /\ hdr = nx * ny - hlen                       (* the filler is the real padding *)
+  /\ G.arl_vardeflen hlen = hlen - 108 /\ G.arl_inq_vheaderlen hlen = hlen - 108
   /\ G.dtype_itemsize G.arl_thdtype = 50 + 108.
 Proof. exact gen_record_length. Qed.
 Print Assumptions C20_gen_record_length.
@@ -180,31 +194,12 @@ Definition w_var (key : list Z) (v1 : list Z) (nc : Z) : var_t :=
 Definition w_period nx ny (ls : list lvl_t) : period_t :=
   Period w_time [57; 57] w_fixed nx ny [32; 50] (repeat 32 (Z.to_nat (nx * ny - 108 - table_len ls))) ls.
 
-(* Region 3: a well-formed file whose index record has fewer than 108 bytes of padding
-   (5 x 26 cells, LENH = 124): the reference decoder reads it, the library model raises
-   (it maps LENH bytes after the 158-byte label+header as the table). *)
-Definition wit_shortpad := [w_period 5 26 [Lvl w_sfc [w_var k_PRSS w_v0 130]]].
-Theorem C20_file_short_padding_refuted : exists ps,
-  forallb wf_period ps = true /\ forallb cksums_ok ps = true /\ dec (enc ps) = Some ps
-  /\ spec_view ps <> None /\ forallb lib_room ps = false /\ impl_read std_sizes (enc ps) = None.
-Proof. exists wit_shortpad. vm_compute. repeat split; try reflexivity; discriminate. Qed.
-Print Assumptions C20_file_short_padding_refuted.
-
-(* Region 5: two columns (2 x 116 cells, room for the table): the library model raises
-   (cell-bounds code of the lat-lon branch of arlpackedbit.__init__ indexes np.diff(x)[1]). *)
-Definition wit_narrow := [w_period 2 116 [Lvl w_sfc [w_var k_PRSS w_v0 232]]].
-Theorem C20_file_two_columns_refuted : exists ps,
-  forallb wf_period ps = true /\ forallb lib_room ps = true /\ dec (enc ps) = Some ps
-  /\ spec_view ps <> None /\ forallb lib_grid_ok ps = false /\ impl_read std_sizes (enc ps) = None.
-Proof. exists wit_narrow. vm_compute. repeat split; try reflexivity; discriminate. Qed.
-Print Assumptions C20_file_two_columns_refuted.
-
 (* Region 6: the same key at the surface and at an upper level: the library returns the
    surface variable under both names, the upper-level field cannot be read back. *)
 Definition wit_dupkey :=
   [w_period 4 62 [Lvl w_sfc [w_var k_TEMP w_v0 248]; Lvl w_1000 [w_var k_TEMP w_v5 248]]].
 Theorem C20_file_shared_key_refuted : exists ps,
-  forallb wf_period ps = true /\ forallb lib_room ps = true /\ forallb lib_grid_ok ps = true
+  forallb wf_period ps = true /\ forallb lib_grid_ok ps = true /\ forallb lvl_texts_ok ps = true
   /\ forallb keys_disjoint ps = false
   /\ impl_read std_sizes (enc ps) <> None /\ impl_read std_sizes (enc ps) <> spec_view ps.
 Proof. exists wit_dupkey. vm_compute. repeat split; try reflexivity; discriminate. Qed.
@@ -223,8 +218,16 @@ Print Assumptions C20_file_writer_raises_refuted.
 Definition ex_file :=
   [w_period 4 70 [Lvl w_sfc [w_var k_PRSS w_v0 280; w_var [84; 48; 50; 77] w_v5 280]; Lvl w_1000 [w_var k_TEMP w_v5 280]];
    w_period 4 70 [Lvl w_sfc [w_var k_PRSS w_v5 280; w_var [84; 48; 50; 77] w_v0 280]; Lvl w_1000 [w_var k_TEMP w_v0 280]]].
+(* the smallest grids: 2 x 62 cells = LENH, no padding at all (the former regions 3 and 5) *)
+Definition ex_small := [w_period 2 62 [Lvl w_sfc [w_var k_PRSS w_v0 124]]].
+Example C20_file_small_grid :
+  forallb wf_period ex_small = true /\ forallb lib_grid_ok ex_small = true /\ forallb lvl_texts_ok ex_small = true
+  /\ forallb keys_disjoint ex_small = true /\ impl_read std_sizes (enc ex_small) = spec_view ex_small
+  /\ spec_view ex_small <> None /\ dec (enc ex_small) = Some ex_small.
+Proof. vm_compute. repeat split; try reflexivity; discriminate. Qed.
 Example C20_file_hyp_inhabited :
   forallb wf_period ex_file = true /\ forallb (same_layout (hd (w_period 0 0 []) ex_file)) (tl ex_file) = true
-  /\ forallb lib_room ex_file = true /\ forallb lib_grid_ok ex_file = true /\ forallb keys_disjoint ex_file = true
+  /\ forallb (same_keys (hd (w_period 0 0 []) ex_file)) (tl ex_file) = true
+  /\ forallb lib_grid_ok ex_file = true /\ forallb lvl_texts_ok ex_file = true /\ forallb keys_disjoint ex_file = true
   /\ impl_read std_sizes (enc ex_file) = spec_view ex_file /\ spec_view ex_file <> None.
 Proof. vm_compute. repeat split; try reflexivity; discriminate. Qed.
